@@ -271,7 +271,13 @@ func calculateSystemConfigMerged(oldCfg configuration.SystemCfg, configMap *core
 		clusterCfgCopy := mergedCfg.ClusterStrategy.DeepCopy()
 		if nodeStrategy.SystemStrategy != nil {
 			mergedStrategyInterface, _ := util.MergeCfg(clusterCfgCopy, nodeStrategy.SystemStrategy)
-			mergedCfg.NodeStrategies[index].SystemStrategy = mergedStrategyInterface.(*slov1alpha1.SystemStrategy)
+			mergedNodeStrategy := mergedStrategyInterface.(*slov1alpha1.SystemStrategy)
+			// TotalNetworkBandwidth is not a pointer, so it is always marshaled and an unset value in the node
+			// strategy would override the cluster one with zero
+			if nodeStrategy.SystemStrategy.TotalNetworkBandwidth.IsZero() {
+				mergedNodeStrategy.TotalNetworkBandwidth = mergedCfg.ClusterStrategy.TotalNetworkBandwidth.DeepCopy()
+			}
+			mergedCfg.NodeStrategies[index].SystemStrategy = mergedNodeStrategy
 		} else {
 			mergedCfg.NodeStrategies[index].SystemStrategy = clusterCfgCopy
 		}
